@@ -183,6 +183,7 @@ type obsLine struct {
 	T    int64          `json:"t"`
 	Ev   []event        `json:"ev"`
 	Pend map[string]int `json:"pend"` // unread bytes per open connection
+	Void []string       `json:"void"` // conns offered to a dial that its context had already cancelled
 }
 
 // ---------------------------------------------------------------- plugin
@@ -431,6 +432,7 @@ type run struct {
 	mu     sync.Mutex
 	dials  map[string][]*pendingDial // by peer name
 	nDials map[string]int
+	void   []string
 }
 
 func (r *run) dialHook(ctx context.Context, local, remote netip.Addr, port int) (net.Conn, error) {
@@ -452,10 +454,38 @@ func (r *run) dialHook(ctx context.Context, local, remote netip.Addr, port int) 
 	}()
 	select {
 	case <-ctx.Done():
+		// like net.Dialer: a connection that completes for a cancelled dial is
+		// closed by the dialer and never reaches the caller
+		r.mu.Lock()
+		pd.done = true
+		select {
+		case d := <-pd.ch:
+			r.voidConn(d.conn)
+		default:
+		}
+		r.mu.Unlock()
 		return nil, ctx.Err()
 	case d := <-pd.ch:
 		return d.conn, d.err
 	}
+}
+
+// voidConn (r.mu held) records that the dialer itself disposed of c.
+func (r *run) voidConn(c net.Conn) {
+	fc, ok := c.(*fakeConn)
+	if !ok || fc == nil {
+		return
+	}
+	fc.mu.Lock()
+	fc.held = false
+	fc.mu.Unlock()
+	r.void = append(r.void, fc.name)
+}
+
+func (r *run) voids() []string {
+	r.mu.Lock()
+	defer r.mu.Unlock()
+	return append([]string{}, r.void...)
 }
 
 // livePending returns the oldest dial of the peer that has not finished.
@@ -577,10 +607,6 @@ func (r *run) doStep(st stepJ) error {
 		}
 		r.liss[st.Lis].offer(c)
 	case "dialAccept":
-		pd := r.livePending(st.Peer)
-		if pd == nil {
-			return fmt.Errorf("no pending dial for %q", st.Peer)
-		}
 		p, _ := r.peerByName(st.Peer)
 		local := st.Src
 		if local == "" {
@@ -589,7 +615,36 @@ func (r *run) doStep(st stepJ) error {
 		c := newFakeConn(st.Conn, local, net.JoinHostPort(p.Remote, "179"), r.tr)
 		r.conns[st.Conn] = c
 		c.held = true
-		pd.ch <- dialDecision{conn: c}
+		// check and hand-over are one atomic step with respect to the hook's
+		// cancellation path, so the connection is either consumed or voided
+		r.mu.Lock()
+		var pd *pendingDial
+		for _, x := range r.dials[st.Peer] {
+			if !x.done {
+				pd = x
+				break
+			}
+		}
+		if pd == nil {
+			// the dial this step raced with is already over (cancelled): the
+			// connection completes for nobody, as it would in the kernel
+			n := len(r.dials[st.Peer])
+			r.mu.Unlock()
+			if n == 0 {
+				return fmt.Errorf("no pending dial for %q", st.Peer)
+			}
+			r.mu.Lock()
+			r.voidConn(c)
+			r.mu.Unlock()
+			return nil
+		}
+		select {
+		case pd.ch <- dialDecision{conn: c}:
+		default:
+			r.mu.Unlock()
+			return fmt.Errorf("dial of %q already decided", st.Peer)
+		}
+		r.mu.Unlock()
 	case "dialRefuse":
 		pd := r.livePending(st.Peer)
 		if pd == nil {
@@ -784,7 +839,7 @@ func runScript(t *testing.T, sc scriptJ, w *bufio.Writer) {
 				}
 			}
 			synctest.Wait()
-			enc(obsLine{K: "obs", I: i, T: r.tr.nowUnits(), Ev: r.tr.take(), Pend: r.pend()})
+			enc(obsLine{K: "obs", I: i, T: r.tr.nowUnits(), Ev: r.tr.take(), Pend: r.pend(), Void: r.voids()})
 		}
 		// epilogue: open every gate, make sure the server is closed, then judge leaks
 		r.lis.release()
@@ -803,7 +858,7 @@ func runScript(t *testing.T, sc scriptJ, w *bufio.Writer) {
 		// let goroutines that are merely unwinding finish
 		synctest.Wait()
 		final := r.tr.take()
-		enc(obsLine{K: "obs", I: -1, T: r.tr.nowUnits(), Ev: final, Pend: r.pend()})
+		enc(obsLine{K: "obs", I: -1, T: r.tr.nowUnits(), Ev: final, Pend: r.pend(), Void: r.voids()})
 		end.Leak = append(end.Leak, corebgpGoroutines()...)
 		for _, pl := range r.plugins {
 			pl.mu.Lock()
